@@ -79,6 +79,7 @@ func cmdFunc(args []string) int {
 		fmt.Fprintln(os.Stderr, "consts:", err)
 		return 2
 	}
+	cs.ExpandIfaceContracts(p)
 	fmt.Printf("loaded in %.1fs, %d contracts\n", time.Since(t0).Seconds(), len(cs.Funcs))
 	work := filepath.Join(VerifDir, ".work", fmt.Sprintf("func-%d", os.Getpid()))
 	os.MkdirAll(work, 0o755)
@@ -94,7 +95,7 @@ func cmdFunc(args []string) int {
 				match = true
 			}
 		}
-		if !match || c.Assumed || c.Iface {
+		if !match || c.Assumed || c.Iface || (c.Inline && len(c.Ensures) == 0 && len(c.Fails) == 0 && !c.NoFail) {
 			continue
 		}
 		res := p.VerifyFunc(c)
